@@ -46,11 +46,13 @@ type AbsState struct {
 	PrevTotal int64      `json:"prevTotal"`
 	Uq        []UqEntry  `json:"uq"`
 	Sinfo     []AbsInfo  `json:"sinfo"`
-	Bits      [][]int64  `json:"bits"`   // indexes stored as true
-	AwardQ    []int64    `json:"awardQ"` // per id 1..N+4; 0 = absent or zero
-	BurnQ     []string   `json:"burnQ"`  // Dec strings, "" = absent
+	Bits      [][]int64  `json:"bits"`     // indexes stored as true
+	AwardQ    []int64    `json:"awardQ"`   // per id 1..N+4; 0 = absent or zero
+	BurnQ     []string   `json:"burnQ"`    // Dec strings, "" = absent
 	Proposer  int        `json:"proposer"` // id, 0 = unknown address, -1 = unset
 	Pkrel     []int      `json:"pkrel"`
+	MaxVals   int64      `json:"maxVals"`   // pos/MaxValidators as stored
+	MinStake  int64      `json:"minStake"`  // pos/StakeMinimum as stored
 	Anomalies []string   `json:"anomalies"` // things the abstraction cannot represent (unknown addresses, foreign denoms …)
 }
 
@@ -65,10 +67,20 @@ func amt(c sdk.Coins) (int64, bool) {
 }
 
 // Project reads the current (uncommitted, root multistore) state.
-func (a *App) Project() AbsState {
+func (a *App) Project() (s AbsState) {
 	n := a.Cfg.N
 	ctx := a.Ctx()
-	s := AbsState{Bal: make([]int64, n+4), Val: make([]AbsVal, n), Prev: make([]int64, n), Sinfo: make([]AbsInfo, n),
+	defer func() {
+		// the stores can be in a shape no well-formed state has (e.g. after a faulty change wiped
+		// them): report what could be read plus an anomaly instead of dying
+		if r := recover(); r != nil {
+			if s.Anomalies == nil {
+				s.Anomalies = []string{}
+			}
+			s.Anomalies = append(s.Anomalies, fmt.Sprintf("projection panicked: %v", r))
+		}
+	}()
+	s = AbsState{Bal: make([]int64, n+4), Val: make([]AbsVal, n), Prev: make([]int64, n), Sinfo: make([]AbsInfo, n),
 		Bits: make([][]int64, n), AwardQ: make([]int64, n+4), BurnQ: make([]string, n), Pidx: [][2]int64{}, Uq: []UqEntry{}, Pkrel: []int{}, Anomalies: []string{}}
 	for i := range s.Prev {
 		s.Prev[i] = -1
@@ -222,6 +234,8 @@ func (a *App) Project() AbsState {
 		}
 		s.BurnQ[id-1] = d.String()
 	})
+	s.MaxVals = int64(a.PK.MaxValidators(ctx))
+	s.MinStake = a.PK.MinimumStake(ctx)
 	bz := st.Get(postypes.ProposerKey)
 	if bz == nil {
 		s.Proposer = -1
